@@ -144,6 +144,20 @@ def _select(pool, n, rnd):
     return chosen
 
 
+def _has_unused(t):
+    used = {v for s in t for v in s["a"]}
+    return any(j > 2 and s["ty"]["k"] != "none" and j not in used for j, s in enumerate(t, start=1))
+
+
+def _select_mixed(pool, n, rnd):
+    """about a quarter of the sample are programs that drop a value (Hydro attaches a null sink),
+    the rest use everything they define"""
+    a = {k: t for k, t in pool.items() if not _has_unused(t)}
+    b = {k: t for k, t in pool.items() if _has_unused(t)}
+    nb = min(len(b), n // 4)
+    return _select(a, n - nb, rnd) + _select(b, nb, rnd)
+
+
 def _nontrivial(t):
     return bool({s["op"] for s in t} - TRIVIAL_OPS)
 
@@ -229,7 +243,7 @@ def run(tier):
             pool_q[gen.term_name(t)] = t
     if len(pool_q) < 1000:
         raise vlib.ToolError("vacuous generation: only %d programs" % len(pool_q))
-    quick_names = _select(pool_q, 30, rnd)
+    quick_names = _select_mixed(pool_q, 30, rnd)
     quick_terms = [pool_q[k] for k in quick_names]
     pool_t = dict(pool_q)
     thorough_terms = None
@@ -250,7 +264,7 @@ def run(tier):
                 for t in f.result():
                     pool_t[gen.term_name(t)] = t
         rest = {k: v for k, v in pool_t.items() if k not in set(quick_names)}
-        thorough_terms = [rest[k] for k in _select(rest, 260, rnd)]
+        thorough_terms = [rest[k] for k in _select_mixed(rest, 260, rnd)]
 
     lap("terms enumerated")
     # ---- (2) render --------------------------------------------------------------------------
